@@ -25,7 +25,7 @@ func checkC12Defaults(c *vkit.Ctx) {
 	if p == nil {
 		return
 	}
-	n := c.N(60, 1500)
+	n := c.N(150, 5000)
 	for i := 0; i < n; i++ {
 		if !c.Mine(i) {
 			continue
